@@ -71,7 +71,7 @@ func genC09(w *out.W, tier string) {
 		maxFiles, maxStmts, triples = 3, 4, true
 	}
 	w.Exhaust = true
-	w.Rule = fmt.Sprintf("exhaustive: every directory shape of 1..%d files x 0..%d statements x every fault position (each ExecContext and each WriteRevision call of the run) in a first run x every fault position or none in a second run (thorough: also a third) x a final clean run; plus the same for every directory of 1..%d files x 1..2 statements x every non-empty set of checkpoint files (the run starts at the latest checkpoint); ExecuteN(0) each time on a recording driver/store. Non-trivial = at least one fault hit a call that was actually made; distinct by (shape, checkpoint set, fault positions)", maxFiles, maxStmts, maxFiles)
+	w.Rule = fmt.Sprintf("exhaustive: every directory shape of 1..%d files x 0..%d statements x every fault position (each ExecContext and each WriteRevision call of the run) in a first run x every fault position or none in a second run (thorough: also a third) x a final clean run; plus the same for every directory of 1..%d files x 1..2 statements x every non-empty set of checkpoint files (the run starts at the latest checkpoint); plus non-linear histories: versions 1 and 3 applied, version 2 added, --exec-order non-linear with every fault position / pair inside the out-of-order file; ExecuteN(0) each time on a recording driver/store. Non-trivial = at least one fault hit a call that was actually made; distinct by (shape, checkpoint set, fault positions)", maxFiles, maxStmts, maxFiles)
 	id := 0
 	type shm struct {
 		sh   []int
@@ -147,6 +147,49 @@ func genC09(w *out.W, tier string) {
 				w.Count("checkpoint-dirs")
 			}
 			oracleC09(w, cid, sh, sm.mask, first, flat, sq, res)
+		}
+	}
+	genC09NonLinear(w, &id)
+}
+
+// genC09NonLinear: versions 1 and 3 are applied cleanly, then version 2 is added and the directory is run with
+// --exec-order non-linear: every fault position / pair of fault positions inside the out-of-order file, then
+// clean runs. The documented order is 1, 3, then 2 (an out-of-order file runs when it shows up), and a later
+// run continues the out-of-order file at its first unrecorded statement like any other file.
+func genC09NonLinear(w *out.W, id *int) {
+	for _, sh := range [][]int{{1, 1, 1}, {1, 2, 1}, {2, 3, 1}, {1, 3, 2}, {2, 2, 2}} {
+		files, _ := shapeFiles(sh)
+		var flat []string
+		for _, i := range []int{0, 2, 1} {
+			flat = append(flat, files[i].Stmts...)
+		}
+		base := []execrun.FileSpec{files[0], files[2]}
+		total := 2*sh[1] + 2
+		var seqs [][]int
+		for i := 0; i < total; i++ {
+			seqs = append(seqs, []int{i})
+			for j := 0; j < total; j++ {
+				seqs = append(seqs, []int{i, j})
+			}
+		}
+		seqs = append(seqs, []int{})
+		for _, sq := range seqs {
+			*id++
+			cid := fmt.Sprintf("c09-%d", *id)
+			runs := []execrun.Run{{Order: "non-linear", Files: base}}
+			for _, fi := range sq {
+				runs = append(runs, execrun.Run{Order: "non-linear", Faults: faultAt(fi), Files: files})
+			}
+			runs = append(runs, execrun.Run{Order: "non-linear", Files: files}, execrun.Run{Order: "non-linear", Files: files})
+			line, obs, res, err := execrun.History(runs)
+			if err != nil {
+				w.Violation(cid, "harness", err.Error())
+				continue
+			}
+			w.Case(cid, line, obs)
+			w.Count("non-linear-histories")
+			w.NonTrivial(fmt.Sprintf("nl|%v|%v", sh, sq))
+			oracleC09(w, cid, sh, 0, 0, flat, append([]int{-1}, sq...), res)
 		}
 	}
 }
